@@ -127,14 +127,17 @@ def run(ctx):
         raise vlib.Inconclusive("Tracer.tla (hostile) violates %s:\n%s" % (r.invariant or "deadlock-freedom", r.tail(60)))
     ctx.tlc_ok("Tracer MC hostile", r)
     ctx.cov["mc_states"] = r.distinct
-    lv = ctx.tlc("Tracer", cfg=mc_cfg(main='{"T","W","F","C","J","X3"}', child='{"T"}', mm=3 if t else 2, tot=3, tail=LIVE),
-                 workers=4, timeout=ctx.pick(400, 900))
-    ctx.tlc_ok("Tracer hostile: Terminates under fairness, no deadlock", lv)
-    # the model reproduces the defects / the open finding
-    e1 = ctx.tlc("Tracer", cfg=mc_cfg(main='{"C","F","X3"}', child='{"T"}', mm=2, tot=3, esrch="TRUE"), workers=2, timeout=300, count=False)
-    expect_cex(ctx, "ESRCH from PTRACE_SETOPTIONS on a task killed in its first stop -> Runner Error", e1, "inv")
-    e2 = ctx.tlc("Tracer", cfg=mc_cfg(main='{"T"}', child='{"T"}', mm=1, ms=1, tot=1, clen="TRUE"), workers=2, timeout=300, count=False)
-    expect_cex(ctx, "full path buffer without NUL -> panic -> Runner Error", e2, "inv")
+    if t:
+        lv = ctx.tlc("Tracer", cfg=mc_cfg(main='{"T","W","F","C","J","X3"}', child='{"T"}', mm=3, tot=3, tail=LIVE),
+                     workers=4, timeout=900)
+        ctx.tlc_ok("Tracer hostile: Terminates under fairness, no deadlock", lv)
+    # the model reproduces the defects / the open finding (thorough; quick only the open one)
+    e1 = e2 = None
+    if t:
+        e1 = ctx.tlc("Tracer", cfg=mc_cfg(main='{"C","F","X3"}', child='{"T"}', mm=2, tot=3, esrch="TRUE"), workers=2, timeout=300, count=False)
+        expect_cex(ctx, "ESRCH from PTRACE_SETOPTIONS on a task killed in its first stop -> Runner Error", e1, "inv")
+        e2 = ctx.tlc("Tracer", cfg=mc_cfg(main='{"T"}', child='{"T"}', mm=1, ms=1, tot=1, clen="TRUE"), workers=2, timeout=300, count=False)
+        expect_cex(ctx, "full path buffer without NUL -> panic -> Runner Error", e2, "inv")
     e3 = ctx.tlc("Tracer", cfg=mc_cfg(main='{"F","W"}', child='{"P","T"}', mm=2, mc=2, tot=4), workers=2, timeout=300, count=False)
     expect_cex(ctx, "child leaves the process group (setsid) and stops at a traced call -> nobody waits for it", e3, "deadlock")
     # ---- 2. cases
